@@ -117,6 +117,12 @@ pub struct Verdict {
     /// sub-checks of this case that were not evaluated because a listed finding covers exactly
     /// that (input class, sub-check) pair; the rest of the oracle still ran
     pub kf_skips: Vec<String>,
+    /// a case that stands for a whole enumerated sub-space: number of members evaluated (0 = this
+    /// is a single case) and how many of them were non-trivial (distinct by construction)
+    pub sub_evals: u64,
+    pub sub_nt: u64,
+    /// the exact failing member, to be written as the replay instead of the enclosing case
+    pub repro: Option<serde_json::Value>,
 }
 
 impl Verdict {
@@ -205,6 +211,8 @@ pub struct Report {
     pub exhaustive: bool,
     pub extra: BTreeMap<String, serde_json::Value>,
     pub infra_error: Option<String>,
+    /// non-trivial members of enumerated sub-spaces (distinct by construction, not hashed)
+    pub extra_nt: u64,
 }
 
 impl Report {
@@ -225,6 +233,7 @@ impl Report {
             exhaustive: false,
             extra: BTreeMap::new(),
             infra_error: None,
+            extra_nt: 0,
         }
     }
 }
@@ -462,7 +471,7 @@ pub fn enumerate<C>(
     let t0 = Instant::now();
     let workers = cfg.workers.max(1);
     let chunk = cases.len().div_ceil(workers).max(1);
-    let results: Mutex<Vec<(usize, WorkerStats, Option<(String, C)>)>> = Mutex::new(Vec::new());
+    let results: Mutex<Vec<(usize, WorkerStats, Option<(String, C, Option<serde_json::Value>)>, u64)>> = Mutex::new(Vec::new());
     std::thread::scope(|scope| {
         for (w, part) in cases.chunks(chunk).enumerate() {
             let results = &results;
@@ -479,13 +488,15 @@ pub fn enumerate<C>(
                         samples: Vec::new(),
                     };
                     let mut failure = None;
+                    let mut sub_nt = 0u64;
                     for case in part {
                         let v = run_guarded(run, case);
                         if let Some(id) = &v.excluded {
                             *st.excluded.entry(id.clone()).or_default() += 1;
                             continue;
                         }
-                        st.evaluations += 1;
+                        st.evaluations += if v.sub_evals > 0 { v.sub_evals } else { 1 };
+                        sub_nt += v.sub_nt;
                         for c in &v.classes {
                             *st.classes.entry((*c).to_string()).or_default() += 1;
                         }
@@ -501,11 +512,11 @@ pub fn enumerate<C>(
                         }
                         if let Some(msg) = v.fail {
                             if failure.is_none() {
-                                failure = Some((msg, case.clone()));
+                                failure = Some((msg, case.clone(), v.repro.clone()));
                             }
                         }
                     }
-                    results.lock().unwrap().push((w, st, failure));
+                    results.lock().unwrap().push((w, st, failure, sub_nt));
                 })
                 .expect("spawn worker");
         }
@@ -513,9 +524,10 @@ pub fn enumerate<C>(
     let mut results = results.into_inner().unwrap();
     results.sort_by_key(|r| r.0);
     let mut evals = 0;
-    let before_nt = rep.nt_keys.len();
-    for (_, st, failure) in results {
+    let before_nt = rep.nt_keys.len() as u64 + rep.extra_nt;
+    for (_, st, failure, sub_nt) in results {
         evals += st.evaluations;
+        rep.extra_nt += sub_nt;
         rep.nt_keys.extend(st.nt_keys);
         for (k, v) in st.classes {
             *rep.classes.entry(format!("{phase}:{k}")).or_default() += v;
@@ -529,8 +541,11 @@ pub fn enumerate<C>(
                     .push(serde_json::json!({"phase": phase, "case": s}));
             }
         }
-        if let Some((reason, case)) = failure {
-            let replay = write_replay(cfg, rep.id, phase, &reason, &case);
+        if let Some((reason, case, repro)) = failure {
+            let replay = match repro {
+                Some(r) => write_replay(cfg, rep.id, phase, &reason, &r),
+                None => write_replay(cfg, rep.id, phase, &reason, &case),
+            };
             rep.violations.push(Violation {
                 phase: phase.to_string(),
                 reason,
@@ -542,7 +557,7 @@ pub fn enumerate<C>(
     rep.phases.push(PhaseInfo {
         name: phase.to_string(),
         evaluations: evals,
-        nontrivial_distinct: (rep.nt_keys.len() - before_nt) as u64,
+        nontrivial_distinct: rep.nt_keys.len() as u64 + rep.extra_nt - before_nt,
         exhaustive,
         wall_s: t0.elapsed().as_secs_f64(),
     });
